@@ -672,6 +672,8 @@ impl<Sink: TokenSink> XmlTokenizer<Sink> {
     // Run the state machine for a while.
     #[allow(clippy::never_loop)]
     fn step(&self, input: &BufferQueue) -> ProcessResult<Sink::Handle> {
+        #[cfg(servo_html5ever_verif)]
+        markup5ever::verif_hooks::tick("xml tokenizer step");
         if self.char_ref_tokenizer.borrow().is_some() {
             return self.step_char_ref_tokenizer(input);
         }
